@@ -1,3 +1,898 @@
+(* C01/Lemmas.v — proofs about the model of the event bus (Model.v). *)
 From Common Require Import Prelude.
+From Coq Require Import Sorting.Sorted Sorting.Permutation.
 From C01 Require Import Model.
 Open Scope Z_scope.
+
+(* ========================================================================================== *)
+(* A. add_handler: append + stable descending sort = insertion behind every handler of greater or
+      equal priority                                                                             *)
+
+(* a comes strictly before b: greater priority, or equal priority and registered earlier *)
+Definition hbefore (a b : handler) : Prop :=
+  h_prio a > h_prio b \/ (h_prio a = h_prio b /\ h_seq a < h_seq b).
+Definition sorted_ps (l : list handler) : Prop := StronglySorted hbefore l.
+
+(* where a new registration ends up *)
+Fixpoint place (h : handler) (l : list handler) : list handler :=
+  match l with
+  | [] => [h]
+  | y :: t => if h_prio y <? h_prio h then h :: y :: t else y :: place h t
+  end.
+
+Lemma hbefore_prio a b : hbefore a b -> h_prio b <= h_prio a.
+Proof. unfold hbefore; lia. Qed.
+
+Lemma insert_desc_head a m :
+  match m with [] => True | z :: _ => h_prio z <= h_prio a end -> insert_desc a m = a :: m.
+Proof.
+  destruct m as [|z m]; cbn; [reflexivity|]. intro H.
+  destruct (h_prio z <=? h_prio a) eqn:E; [reflexivity|]. apply Z.leb_gt in E. lia.
+Qed.
+
+Lemma place_head h l a :
+  h_prio h <= h_prio a -> Forall (hbefore a) l ->
+  match place h l with [] => True | z :: _ => h_prio z <= h_prio a end.
+Proof.
+  intros Hh Hl. destruct l as [|y t]; cbn; [exact Hh|].
+  destruct (h_prio y <? h_prio h); [exact Hh|]. inversion Hl; subst. now apply hbefore_prio.
+Qed.
+
+Lemma place_all_smaller h l :
+  Forall (fun x => h_prio x < h_prio h) l -> place h l = h :: l.
+Proof.
+  destruct l as [|y t]; cbn; [reflexivity|]. intro H. inversion H; subst.
+  destruct (h_prio y <? h_prio h) eqn:E; [reflexivity|]. apply Z.ltb_ge in E. lia.
+Qed.
+
+Lemma sort_app_last h l :
+  sorted_ps l -> sort_desc (l ++ [h]) = place h l.
+Proof.
+  unfold sort_desc. induction l as [|a l IH]; intro S; [reflexivity|].
+  inversion S as [|? ? Sl Ha]; subst. cbn [app fold_right]. rewrite (IH Sl). cbn [place].
+  destruct (h_prio a <? h_prio h) eqn:E.
+  - apply Z.ltb_lt in E.
+    assert (Hs : Forall (fun x => h_prio x < h_prio h) l).
+    { eapply Forall_impl; [|exact Ha]. intros x Hx. apply hbefore_prio in Hx. lia. }
+    rewrite (place_all_smaller _ _ Hs). cbn [insert_desc].
+    destruct (h_prio h <=? h_prio a) eqn:E2; [apply Z.leb_le in E2; lia|].
+    f_equal. apply insert_desc_head. destruct l as [|z l']; [exact I|].
+    inversion Ha; subst. now apply hbefore_prio.
+  - apply Z.ltb_ge in E. apply insert_desc_head. now apply place_head.
+Qed.
+
+Lemma place_In h l x : In x (place h l) -> x = h \/ In x l.
+Proof.
+  induction l as [|y t IH]; cbn.
+  - intros [E|[]]; auto.
+  - destruct (h_prio y <? h_prio h); cbn.
+    + intros [E|[E|E]]; auto.
+    + intros [E|E]; auto. destruct (IH E); auto.
+Qed.
+
+Lemma place_sorted h l :
+  sorted_ps l -> Forall (fun x => h_seq x < h_seq h) l -> sorted_ps (place h l).
+Proof.
+  induction l as [|y t IH]; intros S F; cbn.
+  - constructor; constructor.
+  - inversion S as [|? ? St Hy]; subst. inversion F as [|? ? Fy Ft]; subst.
+    destruct (h_prio y <? h_prio h) eqn:E.
+    + apply Z.ltb_lt in E. constructor; [exact S|]. constructor; [left; lia|].
+      eapply Forall_impl; [|exact Hy]. intros x Hx. apply hbefore_prio in Hx. left; lia.
+    + apply Z.ltb_ge in E. constructor; [apply IH; assumption|].
+      apply Forall_forall. intros x Hx. apply place_In in Hx as [->|Hx].
+      * unfold hbefore. destruct (Z.eq_dec (h_prio y) (h_prio h)); [right; split; assumption|left; lia].
+      * rewrite Forall_forall in Hy. now apply Hy.
+Qed.
+
+Lemma place_Forall (P : handler -> Prop) h l : P h -> Forall P l -> Forall P (place h l).
+Proof.
+  intros Hh Hl. apply Forall_forall. intros x Hx. apply place_In in Hx as [->|Hx]; [exact Hh|].
+  rewrite Forall_forall in Hl. now apply Hl.
+Qed.
+
+Lemma filter_sorted f l : sorted_ps l -> sorted_ps (filter f l).
+Proof.
+  induction l as [|a l IH]; intro S; cbn; [constructor|].
+  inversion S as [|? ? Sl Ha]; subst. destruct (f a); [|now apply IH].
+  constructor; [now apply IH|]. apply Forall_forall. intros x Hx. apply filter_In in Hx as [Hx _].
+  rewrite Forall_forall in Ha. now apply Ha.
+Qed.
+
+Lemma filter_Forall {A} (P : A -> Prop) f l : Forall P l -> Forall P (filter f l).
+Proof.
+  intro H. apply Forall_forall. intros x Hx. apply filter_In in Hx as [Hx _].
+  rewrite Forall_forall in H. now apply H.
+Qed.
+
+(* strict sortedness gives: no registration occurs twice in a handler list *)
+Lemma sorted_ps_NoDup l : sorted_ps l -> NoDup l.
+Proof.
+  induction l as [|a l IH]; intro S; [constructor|].
+  inversion S as [|? ? Sl Ha]; subst. constructor; [|now apply IH].
+  intro Hin. rewrite Forall_forall in Ha. specialize (Ha a Hin). unfold hbefore in Ha. lia.
+Qed.
+
+(* ========================================================================================== *)
+(* B. the registry invariant                                                                    *)
+
+Lemma reg_get_del_same e r : reg_get e (reg_del e r) = None.
+Proof.
+  induction r as [|[e' l] t IH]; cbn; [reflexivity|].
+  destruct (e =? e') eqn:E; [exact IH|]. cbn. now rewrite E.
+Qed.
+Lemma reg_get_del_other e e' r : e' <> e -> reg_get e' (reg_del e r) = reg_get e' r.
+Proof.
+  intro N. induction r as [|[e2 l] t IH]; cbn; [reflexivity|].
+  destruct (e =? e2) eqn:E.
+  - apply Z.eqb_eq in E; subst. destruct (e' =? e2) eqn:E2; [apply Z.eqb_eq in E2; congruence|exact IH].
+  - cbn. now rewrite IH.
+Qed.
+Lemma reg_get_put_same e l r : reg_get e (reg_put e l r) = Some l.
+Proof. unfold reg_put; cbn. now rewrite Z.eqb_refl. Qed.
+Lemma reg_get_put_other e e' l r : e' <> e -> reg_get e' (reg_put e l r) = reg_get e' r.
+Proof.
+  intro N. unfold reg_put; cbn. destruct (e' =? e) eqn:E; [apply Z.eqb_eq in E; congruence|].
+  now apply reg_get_del_other.
+Qed.
+
+(* every handler list is strictly sorted by (priority descending, registration order), and sequence
+   numbers are below the counter (so a new registration is the latest) *)
+Definition reg_ok (s : state) : Prop :=
+  forall e l, reg_get e (reg s) = Some l ->
+    sorted_ps l /\ Forall (fun x => h_seq x < nseq s) l.
+
+Lemma reg_ok_eq s s' : reg s' = reg s -> nseq s' = nseq s -> reg_ok s -> reg_ok s'.
+Proof. unfold reg_ok. intros E1 E2 H e l. rewrite E1, E2. apply H. Qed.
+
+Lemma reg_ok_init : reg_ok init.
+Proof. intros e l; cbn; discriminate. Qed.
+
+Lemma add_handler_ok key e pid prio hk c s : reg_ok s -> reg_ok (add_handler key e pid prio hk c s).
+Proof.
+  intros H e' l'. unfold add_handler. cbn [reg nseq set_reg].
+  set (h := mkH key pid prio (kw_norm hk) c (nseq s)).
+  set (l := match reg_get e (reg s) with Some l => l | None => [] end).
+  assert (Hl : sorted_ps l /\ Forall (fun x => h_seq x < nseq s) l).
+  { subst l. destruct (reg_get e (reg s)) eqn:G; [now apply (H e)|]. split; constructor. }
+  destruct Hl as [Sl Fl].
+  destruct (Z.eq_dec e' e) as [->|N].
+  - rewrite reg_get_put_same. intro E; inversion E; subst l'; clear E.
+    rewrite (sort_app_last h l Sl). split.
+    + apply place_sorted; [exact Sl|]. exact Fl.
+    + apply place_Forall; [cbn; lia|]. eapply Forall_impl; [|exact Fl]. cbn; intros; lia.
+  - rewrite reg_get_put_other by exact N. intro G. destruct (H _ _ G) as [S F]. split; [exact S|].
+    eapply Forall_impl; [|exact F]. cbn; intros; lia.
+Qed.
+
+Lemma remove_by_key_ok key s : reg_ok s -> reg_ok (remove_by_key key s).
+Proof.
+  intro H. unfold remove_by_key. destruct (assoc key (keys s)) as [e|]; [|exact H].
+  destruct (reg_get e (reg s)) as [l|] eqn:G; [|exact H].
+  destruct (H _ _ G) as [S F]. intros e' l'. cbn [reg nseq set_reg].
+  destruct (is_nil _) eqn:N.
+  - destruct (Z.eq_dec e' e) as [->|Ne].
+    + rewrite reg_get_del_same. discriminate.
+    + rewrite reg_get_del_other by exact Ne. apply H.
+  - destruct (Z.eq_dec e' e) as [->|Ne].
+    + rewrite reg_get_put_same. intro E; inversion E; subst. split; [now apply filter_sorted|now apply filter_Forall].
+    + rewrite reg_get_put_other by exact Ne. apply H.
+Qed.
+
+Lemma post_reg fast e ty cb k s : reg (post fast e ty cb k s) = reg s /\ nseq (post fast e ty cb k s) = nseq s.
+Proof. unfold post. destruct (_ && _ && _); split; reflexivity. Qed.
+
+Lemma run_action_ok fast a s : reg_ok s -> reg_ok (run_action fast a s).
+Proof.
+  destruct a; cbn.
+  - intro H. destruct (post_reg fast e ty cb k s) as [E1 E2]. exact (reg_ok_eq _ _ E1 E2 H).
+  - apply add_handler_ok.
+  - apply remove_by_key_ok.
+Qed.
+
+Lemma run_acts_ok fast l s : reg_ok s -> reg_ok (run_acts fast l s).
+Proof.
+  unfold run_acts. revert s. induction l as [|a l IH]; intros s H; cbn; [exact H|].
+  apply IH. now apply run_action_ok.
+Qed.
+
+Lemma invoke_ok fast sc pid s : reg_ok s -> reg_ok (fst (invoke fast sc pid s)).
+Proof. intro H. unfold invoke; cbn [fst]. apply run_acts_ok. exact H. Qed.
+
+Lemma run_handlers_ok fast sc e ty hs : forall kwargs r s,
+  reg_ok s -> reg_ok (fst (fst (run_handlers fast sc e ty hs kwargs r s))).
+Proof.
+  induction hs as [|h tl IH]; intros kwargs r s H; cbn [run_handlers]; [exact H|].
+  destruct (cond_holds _ _); [|now apply IH].
+  destruct (invoke fast sc (h_pid h) _) as [s2 r2] eqn:EI.
+  assert (H2 : reg_ok s2).
+  { replace s2 with (fst (invoke fast sc (h_pid h) (emit (Invoke (h_key h) (h_pid h) e (merge kwargs (h_kw h))) s)))
+      by now rewrite EI. apply invoke_ok. exact H. }
+  destruct ty.
+  - now apply IH.
+  - destruct (is_false r2); [exact H2|now apply IH].
+  - destruct r2; now apply IH.
+Qed.
+
+Lemma process_ok fast sc p s : reg_ok s -> reg_ok (process fast sc p s).
+Proof.
+  intro H. unfold process. cbn [reg mark_disp].
+  destruct (reg_get (q_ev p) (reg s)) as [hs|].
+  - pose proof (run_handlers_ok fast sc (q_ev p) (q_ty p) hs (q_kw p) RNone (mark_disp (q_id p) s) H) as H1.
+    destruct (run_handlers _ _ _ _ _ _ _ _) as [[s1 kwargs] result]. cbn in H1.
+    destruct (q_cb p); exact H1.
+  - destruct (q_cb p); exact H.
+Qed.
+
+Lemma dfs_ok fast sc f : forall pending s, reg_ok s -> reg_ok (dfs fast sc f pending s).
+Proof.
+  induction f as [|f IH]; intros pending s H; cbn [dfs]; [exact H|].
+  destruct pending as [|p w]; [exact H|]. apply IH.
+  exact (process_ok fast sc p s H).
+Qed.
+
+Lemma drain_ok fast sc f : forall s, reg_ok s -> reg_ok (drain fast sc f s).
+Proof.
+  induction f as [|f IH]; intros s H; cbn [drain]; [exact H|].
+  destruct (is_nil (evq s) && is_nil (cbq s)); [exact H|].
+  set (s1 := if is_nil (evq s) then s else dfs fast sc f (evq s) (set_evq [] s)).
+  assert (H1 : reg_ok s1). { subst s1. destruct (is_nil (evq s)); [exact H|]. apply dfs_ok. exact H. }
+  destruct (oof s1); [exact H1|].
+  destruct (cbq s1) as [|[[i pid] k] rest]; [now apply IH|].
+  apply IH. apply invoke_ok. apply (reg_ok_eq s1); [reflexivity|reflexivity|exact H1].
+Qed.
+
+(* ========================================================================================== *)
+(* C. what one invocation / one dispatch changes                                                *)
+
+Definition is_invoke (e : Z) (o : obs) : Prop := exists k p m, o = Invoke k p e m.
+
+(* s' differs from s by: observations o appended, posts appended to the event queue *)
+Definition hgrows (s s' : state) (o : list obs) : Prop :=
+  out s' = out s ++ o /\ cbq s' = cbq s /\ pushed s' = pushed s /\ disp s' = disp s /\ oof s' = oof s /\
+  exists new, evq s' = evq s ++ new /\ enq s' = enq s ++ map q_id new.
+
+Lemma hgrows_refl s : hgrows s s [].
+Proof.
+  unfold hgrows. rewrite app_nil_r. repeat split. exists []. cbn. now rewrite !app_nil_r.
+Qed.
+
+Lemma hgrows_trans s1 s2 s3 o1 o2 : hgrows s1 s2 o1 -> hgrows s2 s3 o2 -> hgrows s1 s3 (o1 ++ o2).
+Proof.
+  intros (A1 & A2 & A3 & A4 & A5 & n1 & A6 & A7) (B1 & B2 & B3 & B4 & B5 & n2 & B6 & B7).
+  unfold hgrows. rewrite B1, A1, B2, A2, B3, A3, B4, A4, B5, A5, app_assoc. repeat split.
+  exists (n1 ++ n2). rewrite B6, A6, B7, A7, map_app, !app_assoc. split; reflexivity.
+Qed.
+
+Lemma hgrows_frame s s' : out s' = out s -> cbq s' = cbq s -> pushed s' = pushed s -> disp s' = disp s ->
+  oof s' = oof s -> evq s' = evq s -> enq s' = enq s -> hgrows s s' [].
+Proof.
+  intros. unfold hgrows. rewrite app_nil_r. repeat split; try assumption. exists []. cbn.
+  rewrite !app_nil_r. split; assumption.
+Qed.
+
+Lemma run_action_grows fast a s : hgrows s (run_action fast a s) [].
+Proof.
+  destruct a; cbn [run_action].
+  - unfold post. destruct (_ && _ && _).
+    + apply hgrows_frame; reflexivity.
+    + unfold hgrows. rewrite app_nil_r. cbn. repeat split.
+      eexists [_]. split; reflexivity.
+  - apply hgrows_frame; reflexivity.
+  - unfold remove_by_key. destruct (assoc key (keys s)); [|apply hgrows_refl].
+    destruct (reg_get z (reg s)); [|apply hgrows_refl]. apply hgrows_frame; reflexivity.
+Qed.
+
+Lemma run_acts_grows fast l : forall s, hgrows s (run_acts fast l s) [].
+Proof.
+  unfold run_acts. induction l as [|a l IH]; intro s; cbn [fold_left]; [apply hgrows_refl|].
+  change (@nil obs) with (@nil obs ++ @nil obs). eapply hgrows_trans; [apply run_action_grows|apply IH].
+Qed.
+
+Lemma invoke_grows fast sc pid s : hgrows s (fst (invoke fast sc pid s)) [].
+Proof.
+  unfold invoke. cbn [fst]. change (@nil obs) with (@nil obs ++ @nil obs).
+  eapply hgrows_trans; [|apply run_acts_grows]. apply hgrows_frame; reflexivity.
+Qed.
+
+Lemma emit_grows o s : hgrows s (emit o s) [o].
+Proof. unfold hgrows. cbn. repeat split. exists []. cbn. now rewrite !app_nil_r. Qed.
+
+Lemma run_handlers_grows fast sc e ty hs : forall kwargs r s,
+  exists o, hgrows s (fst (fst (run_handlers fast sc e ty hs kwargs r s))) o /\ Forall (is_invoke e) o.
+Proof.
+  induction hs as [|h tl IH]; intros kwargs r s; cbn [run_handlers].
+  - exists []. split; [apply hgrows_refl|constructor].
+  - destruct (cond_holds _ _); [|apply IH].
+    set (ob := Invoke (h_key h) (h_pid h) e (merge kwargs (h_kw h))).
+    pose proof (invoke_grows fast sc (h_pid h) (emit ob s)) as G.
+    destruct (invoke fast sc (h_pid h) (emit ob s)) as [s2 r2]. cbn [fst] in G.
+    assert (G2 : hgrows s s2 [ob]).
+    { change [ob] with ([ob] ++ []). eapply hgrows_trans; [apply emit_grows|exact G]. }
+    assert (Hob : is_invoke e ob) by (subst ob; unfold is_invoke; eauto).
+    assert (K : forall kw' r', exists o, hgrows s (fst (fst (run_handlers fast sc e ty tl kw' r' s2))) o /\
+                                          Forall (is_invoke e) o).
+    { intros kw' r'. destruct (IH kw' r' s2) as (o & Go & Fo). exists ([ob] ++ o). split.
+      - eapply hgrows_trans; eassumption.
+      - constructor; assumption. }
+    destruct ty.
+    + apply K.
+    + destruct (is_false r2); [|apply K]. cbn [fst]. exists [ob]. split; [exact G2|constructor; [exact Hob|constructor]].
+    + destruct r2; apply K.
+Qed.
+
+(* plain events: exactly the snapshot, filtered by condition, in order, with handler kwargs winning *)
+Definition expected_invocations (e : Z) (kwargs : kw) (hs : list handler) : list obs :=
+  map (fun h => Invoke (h_key h) (h_pid h) e (merge kwargs (h_kw h)))
+      (filter (fun h => cond_holds (h_cond h) (merge kwargs (h_kw h))) hs).
+
+Lemma run_handlers_plain fast sc e hs : forall kwargs r s,
+  out (fst (fst (run_handlers fast sc e TNone hs kwargs r s))) = out s ++ expected_invocations e kwargs hs.
+Proof.
+  unfold expected_invocations.
+  induction hs as [|h tl IH]; intros kwargs r s; cbn [run_handlers filter map].
+  - now rewrite app_nil_r.
+  - destruct (cond_holds _ _); [|apply IH].
+    set (ob := Invoke (h_key h) (h_pid h) e (merge kwargs (h_kw h))).
+    pose proof (invoke_grows fast sc (h_pid h) (emit ob s)) as G.
+    destruct (invoke fast sc (h_pid h) (emit ob s)) as [s2 r2]. cbn [fst] in G.
+    destruct G as (G1 & _). rewrite app_nil_r in G1. cbn [out emit] in G1.
+    rewrite IH, G1. cbn [map]. now rewrite <- app_assoc.
+Qed.
+
+Definition snapshot (e : Z) (s : state) : list handler :=
+  match reg_get e (reg s) with Some l => l | None => [] end.
+
+Lemma process_spec fast sc p s :
+  let s1 := process fast sc p s in
+  exists o new,
+    out s1 = out s ++ o /\ Forall (is_invoke (q_ev p)) o /\
+    evq s1 = evq s ++ new /\ enq s1 = enq s ++ map q_id new /\
+    disp s1 = disp s ++ [q_id p] /\ oof s1 = oof s /\
+    ((q_cb p = None /\ cbq s1 = cbq s /\ pushed s1 = pushed s) \/
+     (exists cb k, q_cb p = Some cb /\ cbq s1 = (q_id p, cb, k) :: cbq s /\ pushed s1 = pushed s ++ [q_id p])).
+Proof.
+  cbn zeta. unfold process. cbn [reg mark_disp].
+  assert (K : exists o, hgrows (mark_disp (q_id p) s)
+            (fst (fst (match reg_get (q_ev p) (reg s) with
+                       | Some hs => run_handlers fast sc (q_ev p) (q_ty p) hs (q_kw p) RNone (mark_disp (q_id p) s)
+                       | None => (mark_disp (q_id p) s, q_kw p, RNone) end))) o /\ Forall (is_invoke (q_ev p)) o).
+  { destruct (reg_get (q_ev p) (reg s)); [apply run_handlers_grows|].
+    exists []. split; [apply hgrows_refl|constructor]. }
+  destruct (match reg_get (q_ev p) (reg s) with Some hs => _ | None => _ end) as [[s1 kwargs] result].
+  cbn [fst] in K. destruct K as (o & (G1 & G2 & G3 & G4 & G5 & new & G6 & G7) & Fo).
+  exists o, new. cbn [out evq enq disp oof cbq pushed mark_disp] in *.
+  destruct (q_cb p) as [cb|].
+  - cbn [out evq enq disp oof cbq pushed push_cb]. repeat split; try assumption.
+    right. eexists cb, _. rewrite G2, G3. repeat split.
+  - repeat split; try assumption. left. repeat split; assumption.
+Qed.
+
+Lemma process_plain fast sc p s :
+  q_ty p = TNone ->
+  out (process fast sc p s) = out s ++ expected_invocations (q_ev p) (q_kw p) (snapshot (q_ev p) s).
+Proof.
+  intro T. unfold process, snapshot. cbn [reg mark_disp]. rewrite T.
+  destruct (reg_get (q_ev p) (reg s)) as [hs|].
+  - pose proof (run_handlers_plain fast sc (q_ev p) hs (q_kw p) RNone (mark_disp (q_id p) s)) as H.
+    destruct (run_handlers _ _ _ _ _ _ _ _) as [[s1 kwargs] result]. cbn [fst] in H.
+    destruct (q_cb p); exact H.
+  - unfold expected_invocations. cbn. rewrite app_nil_r. destruct (q_cb p); reflexivity.
+Qed.
+
+(* ========================================================================================== *)
+(* D. the stack invariant (no event lost) and the refinement  inner  =  dfs                      *)
+
+Definition all_nil (t : list (list posted)) : Prop := Forall (fun x => x = []) t.
+
+(* "if a deque is empty then every deque below it is empty" *)
+Fixpoint stack_ok (st : list (list posted)) : Prop :=
+  match st with
+  | [] => True
+  | q :: t => (q = [] -> all_nil t) /\ stack_ok t
+  end.
+
+Lemma all_nil_concat t : all_nil t -> concat t = [].
+Proof. induction 1 as [|x t Hx _ IH]; cbn; [reflexivity|]. now rewrite Hx, IH. Qed.
+
+Lemma all_nil_stack_ok t : all_nil t -> stack_ok t.
+Proof. induction 1 as [|x t Hx Ht IH]; cbn; [exact I|]. split; [intros _; exact Ht|exact IH]. Qed.
+
+(* one iteration of the inner while loop keeps the invariant, whatever the event posts *)
+Lemma pop_spec rest stack :
+  stack_ok stack ->
+  let '(n1, s1) := pop_if_empty rest stack in
+  n1 ++ concat s1 = rest ++ concat stack /\ stack_ok (n1 :: s1).
+Proof.
+  intro H. destruct rest as [|r rs]; destruct stack as [|q st]; cbn [pop_if_empty].
+  - split; [reflexivity|]. cbn. split; [intros _; constructor|exact I].
+  - split; [reflexivity|exact H].
+  - split; [reflexivity|]. cbn. split; [discriminate|exact I].
+  - split; [reflexivity|]. split; [discriminate|exact H].
+Qed.
+
+Lemma push_ok (new n1 : list posted) s1 : new <> [] -> stack_ok (n1 :: s1) -> stack_ok (new :: n1 :: s1).
+Proof. intros N H. split; [intro E; contradiction|exact H]. Qed.
+
+Lemma set_evq_nil_id s : evq s = [] -> set_evq [] s = s.
+Proof. destruct s; cbn. intro E; subst. reflexivity. Qed.
+
+Lemma inner_dfs fast sc f : forall next stack s,
+  stack_ok (next :: stack) ->
+  fst (inner fast sc f next stack s) = dfs fast sc f (next ++ concat stack) s /\
+  (oof (fst (inner fast sc f next stack s)) = false -> all_nil (snd (inner fast sc f next stack s))).
+Proof.
+  induction f as [|f IH]; intros next stack s H.
+  - cbn. split; [reflexivity|discriminate].
+  - destruct next as [|event rest].
+    + cbn [inner fst snd]. destruct H as [Hn Hs]. rewrite (all_nil_concat _ (Hn eq_refl)). cbn.
+      split; [reflexivity|intros _; exact (Hn eq_refl)].
+    + cbn [inner]. destruct H as [_ Hs]. pose proof (pop_spec rest stack Hs) as P.
+      destruct (pop_if_empty rest stack) as [n1 s1]. destruct P as [E Ok].
+      cbn [app dfs]. rewrite <- E.
+      destruct (evq (process fast sc event s)) as [|q0 q] eqn:Q.
+      * rewrite (set_evq_nil_id _ Q). cbn [app]. apply IH. exact Ok.
+      * specialize (IH (q0 :: q) (n1 :: s1) (set_evq [] (process fast sc event s))).
+        cbn [concat] in IH. apply IH. apply push_ok; [discriminate|exact Ok].
+Qed.
+
+Lemma dfs_evq_nil fast sc f : forall pending s, evq s = [] -> evq (dfs fast sc f pending s) = [].
+Proof.
+  induction f as [|f IH]; intros pending s H; cbn [dfs]; [exact H|].
+  destruct pending; [exact H|]. apply IH. reflexivity.
+Qed.
+
+(* ========================================================================================== *)
+(* E. fuel monotonicity; posts made during an event come before whatever was waiting            *)
+
+Lemma dfs_mono fast sc f : forall pending s,
+  oof (dfs fast sc f pending s) = false ->
+  forall f', (f <= f')%nat -> dfs fast sc f' pending s = dfs fast sc f pending s.
+Proof.
+  induction f as [|f IH]; intros pending s H f' L.
+  - cbn in H. discriminate.
+  - destruct f' as [|f']; [lia|]. cbn [dfs] in *. destruct pending as [|p w]; [reflexivity|].
+    apply IH; [exact H|lia].
+Qed.
+
+Lemma dfs_cons fast sc f p w s :
+  dfs fast sc (S f) (p :: w) s =
+  dfs fast sc f (evq (process fast sc p s) ++ w) (set_evq [] (process fast sc p s)).
+Proof. reflexivity. Qed.
+
+Lemma dfs_app fast sc f : forall a b s,
+  oof (dfs fast sc f (a ++ b) s) = false ->
+  dfs fast sc f (a ++ b) s = dfs fast sc f b (dfs fast sc f a s) /\ oof (dfs fast sc f a s) = false.
+Proof.
+  induction f as [|f IH]; intros a b s H.
+  - cbn in H. discriminate.
+  - destruct a as [|p a].
+    + cbn [app] in *. cbn [dfs]. split; [reflexivity|].
+      (* oof s = false: the flag is never reset *)
+      cbn [dfs] in H. destruct b as [|q b]; [exact H|].
+      clear IH. revert H. generalize (evq (process fast sc q s) ++ b). intros l H.
+      assert (St : forall f l s, oof (dfs fast sc f l s) = false -> oof s = false).
+      { clear. induction f as [|f IH]; intros l s H; cbn [dfs] in H.
+        - cbn in H. discriminate.
+        - destruct l as [|p w]; [exact H|]. apply IH in H. cbn [oof set_evq] in H.
+          destruct (process_spec fast sc p s) as (o & new & _ & _ & _ & _ & _ & Ho & _). cbn zeta in Ho.
+          now rewrite Ho in H. }
+      apply St in H. cbn [oof set_evq] in H.
+      destruct (process_spec fast sc q s) as (o & new & _ & _ & _ & _ & _ & Ho & _). cbn zeta in Ho.
+      now rewrite Ho in H.
+    + cbn [app] in *. rewrite dfs_cons in H. rewrite !dfs_cons.
+      rewrite app_assoc in H. destruct (IH _ _ _ H) as [E O].
+      rewrite app_assoc, E. split; [|exact O].
+      symmetry. apply dfs_mono; [|lia]. now rewrite <- E.
+Qed.
+
+(* ========================================================================================== *)
+(* F. process_event_queue  =  "dispatch everything transitively, then one callback, repeat"      *)
+
+Lemma outer_drain fast sc f : forall stack s,
+  all_nil stack -> outer fast sc f stack s = drain fast sc f s.
+Proof.
+  induction f as [|f IH]; intros stack s A; cbn [outer drain]; [reflexivity|].
+  destruct (is_nil (evq s) && is_nil (cbq s)); [reflexivity|].
+  destruct (is_nil (evq s)) eqn:N.
+  - destruct (oof s); [reflexivity|]. destruct (cbq s) as [|[[i pid] k] rest]; apply IH; exact A.
+  - assert (Ok : stack_ok (evq s :: stack)).
+    { split; [|now apply all_nil_stack_ok]. intro E. rewrite E in N. discriminate. }
+    destruct (inner_dfs fast sc f (evq s) stack (set_evq [] s) Ok) as [E An].
+    rewrite (all_nil_concat _ A), app_nil_r in E.
+    destruct (inner fast sc f (evq s) stack (set_evq [] s)) as [s1 stack1]. cbn [fst snd] in *.
+    rewrite <- E. destruct (oof s1) eqn:O; [reflexivity|].
+    specialize (An eq_refl). destruct (cbq s1) as [|[[i pid] k] rest]; apply IH; exact An.
+Qed.
+
+(* ========================================================================================== *)
+(* G. every queued event is dispatched exactly once; every queued callback runs exactly once    *)
+
+Definition cn (x : Z) (l : list Z) : nat := count_occ Z.eq_dec l x.
+Lemma cn_app x a b : cn x (a ++ b) = (cn x a + cn x b)%nat.
+Proof. apply count_occ_app. Qed.
+Lemma cn_cons x a l : cn x (a :: l) = (cn x [a] + cn x l)%nat.
+Proof. change (a :: l) with ([a] ++ l). apply cn_app. Qed.
+
+Definition ids (l : list posted) : list Z := map q_id l.
+Definition cid (c : Z * Z * kw) : Z := fst (fst c).
+Definition cbid1 (o : obs) : list Z := match o with Callback i _ _ => [i] | _ => [] end.
+Definition cbids (o : list obs) : list Z := flat_map cbid1 o.
+
+Lemma cbids_app a b : cbids (a ++ b) = cbids a ++ cbids b.
+Proof. unfold cbids. induction a as [|x a IH]; cbn; [reflexivity|]. now rewrite IH, app_assoc. Qed.
+
+Lemma cbids_invokes e o : Forall (is_invoke e) o -> cbids o = [].
+Proof.
+  induction 1 as [|x o Hx _ IH]; [reflexivity|]. destruct Hx as (k & p & m & ->). cbn. exact IH.
+Qed.
+
+Definition Inv (pending : list posted) (s : state) : Prop :=
+  forall x,
+    (cn x (disp s) + cn x (ids pending) + cn x (ids (evq s)) = cn x (enq s))%nat /\
+    (cn x (cbids (out s)) + cn x (map cid (cbq s)) = cn x (pushed s))%nat.
+
+Lemma Inv_init : Inv [] init.
+Proof. intro x. cbn. split; reflexivity. Qed.
+
+Lemma Inv_grows pending s s' : hgrows s s' [] -> Inv pending s -> Inv pending s'.
+Proof.
+  intros (G1 & G2 & G3 & G4 & _ & new & G6 & G7) H x. destruct (H x) as [A B].
+  rewrite app_nil_r in G1. rewrite G1, G2, G3, G4, G6, G7. unfold ids in *. rewrite map_app, !cn_app.
+  split; lia.
+Qed.
+
+Lemma Inv_emit_other pending o s : cbid1 o = [] -> Inv pending s -> Inv pending (emit o s).
+Proof.
+  intros E H x. destruct (H x) as [A B]. cbn [out emit disp evq enq cbq pushed].
+  rewrite cbids_app. cbn [cbids flat_map]. rewrite E, app_nil_r. split; assumption.
+Qed.
+
+Lemma Inv_move s : Inv [] s -> Inv (evq s) (set_evq [] s).
+Proof.
+  intros H x. destruct (H x) as [A B]. cbn [disp evq enq out cbq pushed set_evq ids map] in *.
+  cbn [cn count_occ] in *. split; [|exact B]. unfold cn in *. cbn [count_occ] in *. lia.
+Qed.
+
+Lemma Inv_process fast sc p w s :
+  Inv (p :: w) s -> Inv (evq (process fast sc p s) ++ w) (set_evq [] (process fast sc p s)).
+Proof.
+  intros H x. destruct (H x) as [A B].
+  destruct (process_spec fast sc p s) as (o & new & P1 & P2 & P3 & P4 & P5 & _ & P7). cbn zeta in *.
+  cbn [disp evq enq out cbq pushed set_evq].
+  rewrite P1, P3, P4, P5, cbids_app, (cbids_invokes _ _ P2), app_nil_r.
+  unfold ids in *. cbn [map] in A. rewrite cn_cons in A. rewrite !map_app, !cn_app. cbn [map].
+  split.
+  - change (cn x []) with 0%nat. lia.
+  - destruct P7 as [(_ & Q1 & Q2)|(cb & k & _ & Q1 & Q2)]; rewrite Q1, Q2; [exact B|].
+    cbn [map cid fst]. rewrite cn_cons, cn_app. lia.
+Qed.
+
+Lemma dfs_oof_sticky fast sc f : forall l s, oof (dfs fast sc f l s) = false -> oof s = false.
+Proof.
+  induction f as [|f IH]; intros l s H; cbn [dfs] in H.
+  - cbn in H. discriminate.
+  - destruct l as [|p w]; [exact H|]. apply IH in H. cbn [oof set_evq] in H.
+    destruct (process_spec fast sc p s) as (o & new & _ & _ & _ & _ & _ & Ho & _). cbn zeta in Ho.
+    now rewrite Ho in H.
+Qed.
+
+Lemma Inv_dfs fast sc f : forall pending s,
+  Inv pending s -> oof (dfs fast sc f pending s) = false -> Inv [] (dfs fast sc f pending s).
+Proof.
+  induction f as [|f IH]; intros pending s H O; cbn [dfs] in *.
+  - cbn in O. discriminate.
+  - destruct pending as [|p w]; [exact H|]. apply IH; [|exact O]. now apply Inv_process.
+Qed.
+
+Lemma Inv_pop i pid k rest s :
+  cbq s = (i, pid, k) :: rest -> Inv [] s -> Inv [] (emit (Callback i pid k) (set_cbq rest s)).
+Proof.
+  intros E H x. destruct (H x) as [A B]. cbn [out emit disp evq enq cbq pushed set_cbq].
+  split; [exact A|]. rewrite E in B. cbn [map cid fst] in B. rewrite cn_cons in B.
+  rewrite cbids_app, cn_app. cbn [cbids flat_map cbid1 app]. lia.
+Qed.
+
+Lemma drain_complete fast sc f : forall s,
+  Inv [] s -> oof (drain fast sc f s) = false ->
+  Inv [] (drain fast sc f s) /\ evq (drain fast sc f s) = [] /\ cbq (drain fast sc f s) = [].
+Proof.
+  induction f as [|f IH]; intros s H O; cbn [drain] in *.
+  - cbn in O. discriminate.
+  - destruct (is_nil (evq s) && is_nil (cbq s)) eqn:N.
+    + apply andb_true_iff in N as [N1 N2]. split; [exact H|].
+      destruct (evq s); [|discriminate]. destruct (cbq s); [|discriminate]. split; reflexivity.
+    + set (s1 := if is_nil (evq s) then s else dfs fast sc f (evq s) (set_evq [] s)) in *.
+      destruct (oof s1) eqn:O1; [congruence|].
+      assert (H1 : Inv [] s1).
+      { subst s1. destruct (is_nil (evq s)); [exact H|]. apply Inv_dfs; [now apply Inv_move|exact O1]. }
+      destruct (cbq s1) as [|[[i pid] k] rest] eqn:C; [now apply IH|].
+      apply IH; [|exact O].
+      eapply Inv_grows; [apply invoke_grows|]. now apply Inv_pop.
+Qed.
+
+Lemma drain_oof_sticky fast sc f : forall s, oof (drain fast sc f s) = false -> oof s = false.
+Proof.
+  induction f as [|f IH]; intros s O; cbn [drain] in O.
+  - cbn in O. discriminate.
+  - destruct (is_nil (evq s) && is_nil (cbq s)); [exact O|].
+    set (s1 := if is_nil (evq s) then s else dfs fast sc f (evq s) (set_evq [] s)) in *.
+    assert (K : oof s1 = false -> oof s = false).
+    { subst s1. destruct (is_nil (evq s)); [auto|]. intro K. now apply dfs_oof_sticky in K. }
+    destruct (oof s1) eqn:O1; [congruence|].
+    auto.
+Qed.
+
+Lemma turn_complete fast sc f pid s :
+  Inv [] s -> oof (turn fast sc f pid s) = false ->
+  Inv [] (turn fast sc f pid s) /\ evq (turn fast sc f pid s) = [] /\ cbq (turn fast sc f pid s) = [].
+Proof.
+  intros H O. unfold turn in *. cbn [oof emit evq cbq] in *.
+  rewrite (outer_drain fast sc f [] _ (Forall_nil _)) in *.
+  set (s1 := fst (invoke fast sc pid (emit (Ctx pid) s))) in *.
+  assert (H1 : Inv [] s1).
+  { subst s1. eapply Inv_grows; [apply invoke_grows|]. now apply Inv_emit_other. }
+  destruct (drain_complete fast sc f s1 H1 O) as (I2 & E2 & C2).
+  split; [|split; assumption]. now apply Inv_emit_other.
+Qed.
+
+Lemma turn_oof_sticky fast sc f pid s : oof (turn fast sc f pid s) = false -> oof s = false.
+Proof.
+  unfold turn. cbn [oof emit]. rewrite (outer_drain fast sc f [] _ (Forall_nil _)). intro O.
+  apply drain_oof_sticky in O.
+  destruct (invoke_grows fast sc pid (emit (Ctx pid) s)) as (_ & _ & _ & _ & G & _).
+  rewrite G in O. exact O.
+Qed.
+
+Lemma run_turns_oof_sticky fast sc f turns : forall s,
+  oof (run_turns fast sc f turns s) = false -> oof s = false.
+Proof.
+  unfold run_turns. induction turns as [|pid ts IH]; intros s O; cbn [fold_left] in O; [exact O|].
+  apply IH in O. now apply turn_oof_sticky in O.
+Qed.
+
+Lemma run_turns_complete fast sc f turns : forall s,
+  Inv [] s -> evq s = [] -> cbq s = [] -> oof (run_turns fast sc f turns s) = false ->
+  Inv [] (run_turns fast sc f turns s) /\ evq (run_turns fast sc f turns s) = [] /\
+  cbq (run_turns fast sc f turns s) = [].
+Proof.
+  induction turns as [|pid ts IH]; intros s H E C O.
+  - cbn. auto.
+  - change (run_turns fast sc f (pid :: ts) s) with (run_turns fast sc f ts (turn fast sc f pid s)) in *.
+    pose proof (run_turns_oof_sticky _ _ _ _ _ O) as O1.
+    destruct (turn_complete fast sc f pid s H O1) as (I1 & E1 & C1).
+    now apply IH.
+Qed.
+
+Lemma every_event_once_l fast sc f turns :
+  let s := run_turns fast sc f turns init in
+  oof s = false ->
+  Permutation (disp s) (enq s) /\ Permutation (cbids (out s)) (pushed s) /\ evq s = [] /\ cbq s = [].
+Proof.
+  cbn zeta. intro O.
+  destruct (run_turns_complete fast sc f turns init Inv_init eq_refl eq_refl O) as (I & E & C).
+  repeat split; try assumption.
+  - apply (Permutation_count_occ Z.eq_dec). intro x. destruct (I x) as [A _]. rewrite E in A.
+    unfold cn in A. cbn in A. lia.
+  - apply (Permutation_count_occ Z.eq_dec). intro x. destruct (I x) as [_ B]. rewrite C in B.
+    unfold cn in B. cbn in B. lia.
+Qed.
+
+(* ========================================================================================== *)
+(* H. ordering statements on the specification                                                  *)
+
+Theorem posts_before_waiting_l fast sc f p waiting s :
+  oof (dfs fast sc (S f) (p :: waiting) s) = false ->
+  let s1 := process fast sc p s in
+  dfs fast sc (S f) (p :: waiting) s =
+    dfs fast sc f waiting (dfs fast sc f (evq s1) (set_evq [] s1)) /\
+  oof (dfs fast sc f (evq s1) (set_evq [] s1)) = false.
+Proof.
+  intro O. cbn zeta. rewrite dfs_cons in *. now apply dfs_app.
+Qed.
+
+(* during the dispatch of pending events (and everything they post) only handlers run: no
+   completion callback runs and every queued callback stays queued *)
+Lemma dfs_only_invokes fast sc f : forall pending s,
+  exists o l, out (dfs fast sc f pending s) = out s ++ o /\ cbids o = [] /\
+              cbq (dfs fast sc f pending s) = l ++ cbq s.
+Proof.
+  induction f as [|f IH]; intros pending s; cbn [dfs].
+  - exists [], []. cbn. now rewrite app_nil_r.
+  - destruct pending as [|p w].
+    + exists [], []. cbn. now rewrite app_nil_r.
+    + destruct (IH (evq (process fast sc p s) ++ w) (set_evq [] (process fast sc p s))) as (o & l & A & B & C).
+      destruct (process_spec fast sc p s) as (o1 & new & P1 & P2 & _ & _ & _ & _ & P7). cbn zeta in *.
+      cbn [out cbq set_evq] in A, C.
+      exists (o1 ++ o). rewrite A, P1, C, cbids_app, (cbids_invokes _ _ P2), B, <- app_assoc.
+      destruct P7 as [(_ & Q1 & _)|(cb & k & _ & Q1 & _)]; rewrite Q1.
+      * exists l. repeat split.
+      * exists (l ++ [(q_id p, cb, k)]). rewrite <- app_assoc. repeat split.
+Qed.
+
+(* the callback of p is still waiting when p and everything p transitively posted is done *)
+Lemma callback_after_closure_l fast sc f p cb s :
+  q_cb p = Some cb ->
+  exists k l o, cbq (dfs fast sc (S f) [p] s) = l ++ (q_id p, cb, k) :: cbq s /\
+                out (dfs fast sc (S f) [p] s) = out s ++ o /\ cbids o = [].
+Proof.
+  intro Q. rewrite dfs_cons.
+  destruct (dfs_only_invokes fast sc f (evq (process fast sc p s) ++ []) (set_evq [] (process fast sc p s)))
+    as (o & l & A & B & C).
+  destruct (process_spec fast sc p s) as (o1 & new & P1 & P2 & _ & _ & _ & _ & P7). cbn zeta in *.
+  cbn [out cbq set_evq] in A, C.
+  destruct P7 as [(Q0 & _)|(cb' & k & Q0 & Q1 & _)]; [congruence|].
+  assert (cb' = cb) by congruence; subst cb'.
+  exists k, l, (o1 ++ o). rewrite C, Q1, A, P1, cbids_app, (cbids_invokes _ _ P2), B, <- app_assoc.
+  repeat split.
+Qed.
+
+(* handlers of one dispatch (plain event): exactly the snapshot that is registered when the dispatch
+   begins, in descending priority with ties in registration order, each once, handler kwargs winning *)
+Lemma handlers_once_l fast sc p s :
+  reg_ok s -> q_ty p = TNone ->
+  let snap := snapshot (q_ev p) s in
+  out (process fast sc p s) = out s ++ expected_invocations (q_ev p) (q_kw p) snap /\
+  sorted_ps snap /\ NoDup snap.
+Proof.
+  intros R T. cbn zeta. split; [now apply process_plain|].
+  unfold snapshot. destruct (reg_get (q_ev p) (reg s)) as [l|] eqn:G.
+  - destruct (R _ _ G) as [S _]. split; [exact S|now apply sorted_ps_NoDup].
+  - split; constructor.
+Qed.
+
+(* any event type: only handlers of that event run during its dispatch (no nesting, no interleaving) *)
+Lemma dispatch_is_segment_l fast sc p s :
+  exists o, out (process fast sc p s) = out s ++ o /\ Forall (is_invoke (q_ev p)) o.
+Proof.
+  destruct (process_spec fast sc p s) as (o & new & P1 & P2 & _). cbn zeta in *. eauto.
+Qed.
+
+(* the registry invariant holds in every state a run goes through *)
+Lemma turn_ok fast sc f pid s : reg_ok s -> reg_ok (turn fast sc f pid s).
+Proof.
+  intro H. unfold turn. rewrite (outer_drain fast sc f [] _ (Forall_nil _)).
+  apply (reg_ok_eq (drain fast sc f (fst (invoke fast sc pid (emit (Ctx pid) s))))); [reflexivity|reflexivity|].
+  apply drain_ok. apply invoke_ok. apply (reg_ok_eq s); [reflexivity|reflexivity|exact H].
+Qed.
+
+Lemma run_turns_ok fast sc f turns : forall s, reg_ok s -> reg_ok (run_turns fast sc f turns s).
+Proof.
+  unfold run_turns. induction turns as [|pid ts IH]; intros s H; cbn [fold_left]; [exact H|].
+  apply IH. now apply turn_ok.
+Qed.
+
+(* add_handler on a sorted list = insert behind every handler of greater or equal priority *)
+Lemma add_handler_stable_l key e pid prio hk c s :
+  reg_ok s ->
+  snapshot e (add_handler key e pid prio hk c s) =
+    place (mkH key pid prio (kw_norm hk) c (nseq s)) (snapshot e s).
+Proof.
+  intro R. unfold snapshot, add_handler. cbn [reg set_reg]. rewrite reg_get_put_same.
+  destruct (reg_get e (reg s)) as [l|] eqn:G.
+  - destruct (R _ _ G) as [S _]. now apply sort_app_last.
+  - reflexivity.
+Qed.
+
+Lemma place_split h l :
+  exists a b, l = a ++ b /\ place h l = a ++ h :: b /\
+              Forall (fun x => h_prio h <= h_prio x) a /\
+              match b with [] => True | y :: _ => h_prio y < h_prio h end.
+Proof.
+  induction l as [|y t IH]; cbn [place].
+  - exists [], []. repeat split. constructor.
+  - destruct (h_prio y <? h_prio h) eqn:E.
+    + apply Z.ltb_lt in E. exists [], (y :: t). repeat split; [constructor|exact E].
+    + apply Z.ltb_ge in E. destruct IH as (a & b & E1 & E2 & F & M).
+      exists (y :: a), b. rewrite E1 at 1. rewrite E2. repeat split; [constructor; assumption|exact M].
+Qed.
+
+(* ========================================================================================== *)
+(* I. the fast path of _post is observable (recorded finding)                                    *)
+
+Definition fp_script : script :=
+  [(1, [mkP [APost 1 TNone None []; AAdd 1 1 2 1 0 0 [] None] RNone])].
+
+Lemma fastpath_drop_refuted_l :
+  let s := run_turns true fp_script 10 [1] init in
+  let s' := run_turns false fp_script 10 [1] init in
+  oof s = false /\ oof s' = false /\
+  map h_key (snapshot 1 s) = [1] /\                 (* the handler is registered when the queue is drained *)
+  In (Invoke 1 2 1 []) (out s') /\ ~ In (Invoke 1 2 1 []) (out s).
+Proof.
+  vm_compute. repeat split; auto.
+  intros [H|[H|[]]]; discriminate.
+Qed.
+
+Lemma post_enqueues_iff fast e ty cb k s :
+  enq (post fast e ty cb k s) = enq s ++ [npost s] <->
+  ~ (fast = true /\ cb = None /\ reg_get e (reg s) = None).
+Proof.
+  unfold post. cbn [reg bump_post].
+  destruct fast, cb, (reg_get e (reg s)); cbn; split; intro H; try reflexivity;
+    try (intros (A & B & C); discriminate).
+  - exfalso. assert (L : length (enq s) = length (enq s ++ [npost s])) by now rewrite <- H.
+    rewrite app_length in L. cbn in L. lia.
+  - exfalso. apply H. auto.
+Qed.
+
+(* ========================================================================================== *)
+(* J. the hypotheses are satisfiable: a three-level posting tree with equal priorities, a removal
+      during dispatch and a callback                                                            *)
+
+Definition ex_script : script :=
+  [ (10, [mkP [AAdd 1 1 1 1 0 0 [] None; AAdd 2 1 2 1 0 0 [(1, VZ 7)] None; AAdd 3 1 3 2 0 0 [] None;
+               AAdd 4 2 4 1 0 0 [] None; AAdd 5 3 5 1 0 0 [] None;
+               APost 1 TNone (Some 20) [(1, VZ 1)]; APost 3 TNone None []] RNone]);
+    (3, [mkP [APost 2 TNone None []; ARemove 2] RNone]);
+    (4, [mkP [APost 3 TNone None [(2, VB true)]] RNone]) ].
+
+Example ex_run :
+  let s := run_turns true ex_script 50 [10] init in
+  oof s = false /\
+  out s = [Ctx 10;
+           Invoke 3 3 1 [(1, VZ 1)]; Invoke 1 1 1 [(1, VZ 1)]; Invoke 2 2 1 [(1, VZ 7)];
+           Invoke 4 4 2 [];
+           Invoke 5 5 3 [(2, VB true)];
+           Invoke 5 5 3 [];
+           Callback 0 20 [(1, VZ 1)];
+           Quiet 0 0].
+Proof. vm_compute. split; reflexivity. Qed.
+
+Definition ex_state : state := run_turns true ex_script 50 [10] init.
+Definition ex_post : posted := mkQ 100 1 TNone None [(3, VB false)].
+
+(* hypotheses of handlers_once: a reachable state with a non-trivial snapshot (handler 2 was removed) *)
+Example ex_handlers_hyp :
+  reg_ok ex_state /\ q_ty ex_post = TNone /\ map h_key (snapshot (q_ev ex_post) ex_state) = [3; 1].
+Proof. split; [apply run_turns_ok, reg_ok_init|]. vm_compute. split; reflexivity. Qed.
+
+(* hypotheses of no_event_lost / dispatch_refines_dfs: a stack with empty deques at the bottom; the run completes *)
+Example ex_stack_hyp :
+  stack_ok ([ex_post] :: [[ex_post; ex_post]; []; []]) /\
+  oof (fst (inner true ex_script 50 [ex_post] [[ex_post; ex_post]; []; []] ex_state)) = false.
+Proof.
+  split; [|vm_compute; reflexivity].
+  cbn. repeat split; try discriminate; intros; repeat constructor.
+Qed.
+
+(* hypotheses of posts_before_waiting: an event that posts, with an event already waiting *)
+Example ex_waiting_hyp :
+  let s := fst (invoke true ex_script 10 (emit (Ctx 10) init)) in
+  match evq s with
+  | p :: waiting => waiting <> [] /\ oof (dfs true ex_script 50 (p :: waiting) (set_evq [] s)) = false /\
+                    evq (process true ex_script p (set_evq [] s)) <> []
+  | [] => False
+  end.
+Proof. vm_compute. repeat split; discriminate. Qed.
+
+Lemma stack_invariant_preserved_l :
+  forall rest stack (new : list posted), stack_ok stack ->
+    let '(n1, s1) := pop_if_empty rest stack in
+    n1 ++ concat s1 = rest ++ concat stack /\ stack_ok (n1 :: s1) /\
+    (new <> [] -> stack_ok (new :: n1 :: s1)).
+Proof.
+  intros rest stack new H. pose proof (pop_spec rest stack H) as P.
+  destruct (pop_if_empty rest stack) as [n1 s1]. destruct P as [E Ok].
+  split; [exact E|]. split; [exact Ok|]. intro N. now apply push_ok.
+Qed.
+
+Lemma registry_sorted_invariant_l : forall fast sc f turns, reg_ok (run_turns fast sc f turns init).
+Proof. intros. apply run_turns_ok. exact reg_ok_init. Qed.
+
+Lemma add_handler_is_stable_insert_l :
+  forall key e pid prio hk c s, reg_ok s ->
+    let h := mkH key pid prio (kw_norm hk) c (nseq s) in
+    exists a b, snapshot e s = a ++ b /\
+                snapshot e (add_handler key e pid prio hk c s) = a ++ h :: b /\
+                Forall (fun x => h_prio h <= h_prio x) a /\
+                match b with [] => True | y :: _ => h_prio y < h_prio h end.
+Proof.
+  intros key e pid prio hk c s R h. rewrite (add_handler_stable_l key e pid prio hk c s R).
+  apply place_split.
+Qed.
+
+Example ex_add_hyp :
+  reg_ok ex_state /\ map h_key (snapshot 1 ex_state) = [3; 1] /\
+  map h_key (snapshot 1 (add_handler 9 1 1 2 [] None ex_state)) = [3; 9; 1].
+Proof. split; [apply run_turns_ok, reg_ok_init|]. vm_compute. split; reflexivity. Qed.
